@@ -13,7 +13,7 @@ PROPERTY = 'C03'
 RULE = ('Bounded-future typed grammar (bounded eventually/always/until, next/s_next, all past operators, Boolean, arithmetic incl. unary '
         'minus/ln/log; a binary node with children of different horizon is frequent) x random traces of length up to h+8. Oracle: '
         'parse(); pastify(); feed one sample per update; for every i >= h (h = harness horizon, next counts 1): update_i == '
-        'R-dt(phi, w[0..i])[i-h] (reference on the trace seen so far). Lane pastonly: specifications without future operators: pastified '
+        'R-dt(phi, w[0..i])[i-h] (reference on the trace seen so far). Lane giant: eventually/always (and once/historically) with windows of 200..1100 samples (around 256, 512, 1024), alone, negated, with their dual, twice over different variables or next to a sibling without look-ahead, on mostly flat traces with isolated extreme samples. Lane pastonly: specifications without future operators: pastified '
         'monitor == un-pastified monitor == R-dt at every step. Lanes units / units_pastonly (machinery of C08): two spellings of the same durations with unit suffixes, another default unit and '
         'a sampling period != 1 s, compared with each other and with the reference after pastify(). Lane reject: an unbounded future operator makes pastify() raise RTAMTException. Non-trivial = h >= 1, n > h '
         'and the formula has two siblings of different horizon or a future operator nested in a future operator (pastonly: a stateful '
@@ -316,7 +316,59 @@ def check_units(case):
     return C08.check(case)
 
 
+@st.composite
+def giant_cases_(draw, tier):
+    """Bounded eventually / always (and once / historically) with windows of 200..1100 samples, pastified."""
+    from ..common import giant_cases
+    c = draw(giant_cases(F.TUN_FUT + F.TUN_FUT + F.TUN_PAST, lengths='long'))
+    if draw(st.integers(0, 2)) == 0:
+        # a sibling without look-ahead: the pastifier has to delay it by the whole horizon
+        y = ('pred', draw(st.sampled_from(['>=', '<'])), ('var', draw(st.sampled_from(c['vars']))), ('const', 1.0))
+        c['formula'] = ('bin', draw(st.sampled_from(['and', 'or', 'implies'])), y, c['formula']) if draw(st.booleans()) else \
+            ('bin', draw(st.sampled_from(['and', 'or'])), c['formula'], y)
+    return c
+
+
+def check_giant(case):
+    """As check_main, but the reference is evaluated once on the whole trace: for a formula without unbounded future
+    operators the value at i-h on the prefix w[0..i] is the value at i-h on the whole trace (every window that starts at
+    i-h ends at i at the latest); the shortcut is cross-checked on the first and the last compared update."""
+    f = from_json(case['formula'])
+    vs = list(case['vars'])
+    tr = {v: [float(x) for x in case['trace'][v]] for v in vs}
+    n = len(tr[vs[0]])
+    labels = feature_labels(f, n) + ['giant']
+    h = F.horizon(f)
+    if h is None:
+        return DISCARD('unbounded', labels)
+    used = F.fvars(f)
+    feed = [v for v in vs if v in used]
+    if not feed or n <= h:
+        return DISCARD('no-variable-or-short', labels)
+    w = {v: tr[v] for v in feed}
+    text = 'out = ' + show(f)
+    try:
+        whole = dt(f, w, n)
+        for i in (h, n - 1):
+            if dt(f, {v: xs[:i + 1] for v, xs in w.items()}, i + 1)[i - h] != whole[i - h]:
+                return DISCARD('HARNESS:prefix-shortcut', labels)
+    except Undefined:
+        return DISCARD('undefined', labels)
+    o = run_dt_on(text, feed, w, pastify=True)
+    if o[0] != 'ok':
+        return FAIL('exc:%s@%s' % (o[1], o[4]), 'spec: %s (horizon %d)\ntrace: %s\npastified monitor raised %s: %s at %s' % (
+            text, h, w, o[1], o[3], o[4]), labels)
+    got = o[1]
+    bad = [i for i in range(h, n) if not same(got[i], whole[i - h], False)]
+    if bad:
+        i = bad[0]
+        return FAIL('mismatch:giant-window', 'spec: %s   (horizon %d)\ntrace (%d samples): %s\nupdate %d returned %r, the original formula at sample %d is %r' % (
+            text, h, n, w, i, got[i], i - h, whole[i - h]), labels)
+    return PASS(h >= 200 and n - h >= 2, labels)
+
+
 LANES = [
+    Lane('giant', giant_cases_, check_giant, 60, 600, None),
     Lane('units', lambda tier: _units_cases(tier, False), check_units, 1500, 20000, std_candidates),
     Lane('units_pastonly', lambda tier: _units_cases(tier, True), check_units, 800, 10000, std_candidates),
     Lane('main', lambda tier: main_cases(tier), check_main, 4000, 60000, std_candidates),
